@@ -449,3 +449,11 @@ CHECKS["C10"]["status"] = ("all three clauses proved over the model: (i) nothing
                            "(C10_batch_end_consistent, C10_batch_consistent_at_end and their sharper variants); with late edges the statement is false (known finding D1), and with set_silent inside the batch "
                            "it is false by design (batch_silent_counterexample)")
 CHECKS["C10"]["partial"] = [{"theorem": "C10 (ii) for impure bodies", "missing": "batch bodies that create/dispose nodes, and computations that write signals during the end-of-batch propagation (the D13 scenario): correspondence + oracle only"}]
+
+# --- C09 with NoHydrate islands (model extended, proofs redone by a proof sub-agent)
+CHECKS["C09"]["theorems"] += [HY + n for n in ["C09_all_adopted_once_split", "C09_all_adopted_once_islandFree", "C09_matches_client_render_islandFree",
+                                                "C09_server_matches_client_render_islandFree", "C09_after_hydration_now", "C09_island_frozen", "C09_island_inert"]]
+CHECKS["C09"]["status"] = CHECKS["C09"]["status"].replace("adoption proved over the model for every Show-free view, every store:",
+    "adoption proved over the model for every Show-free view (NoHydrate islands included: rendered by the server without keys and markers, skipped by the client, left literally identical by hydration — keylessEls; Show inside an island is allowed), every store:")
+CHECKS["C09"]["manifest_note"] = CHECKS["C09"]["manifest_note"].replace("Views with NoHydrate/NoSsr/Keyed are not in the view language yet.",
+    "NoHydrate is in the view language (model, theorems, generator; it exposed and now guards defect D14); NoSsr and Keyed/Indexed under hydration are not.")
